@@ -45,6 +45,18 @@ Theorem C16_window_closes :
 Proof. exact auth_window_closed. Qed.
 Print Assumptions C16_window_closes.
 
+(* the flag is owned by the running Auth call: T1 - Auth is the only function of package smtp that assigns authIsActive;
+   and inside Auth the value set on entry is the one every command of the exchange is logged under, and the one in force
+   until the deferred function runs (whatever the mechanism does in Start / Next, e.g. calling other methods of the Client) *)
+Theorem C16_source_flag_owned_by_auth : Gen.smtp_authIsActive_writers = [bs "Client.Auth"].
+Proof. exact gen_flag_owned_by_auth. Qed.
+Print Assumptions C16_source_flag_owned_by_auth.
+
+Theorem C16_flag_constant_during_auth : forall S (m : mech S) active name rest s code msg64 o,
+  f_active (auth_loop m active name s code msg64 rest o) = active.
+Proof. exact loop_active. Qed.
+Print Assumptions C16_flag_constant_during_auth.
+
 (* so traffic after authentication is logged verbatim *)
 Theorem C16_after_auth_plain :
   forall S (m : mech S) (s : S) (lad : bool) (script : list reply) (line : bytes) (c : N) (t : bytes),
